@@ -4,6 +4,7 @@ import (
 	"fmt"
 	"go/token"
 	"go/types"
+	"os"
 	"sort"
 	"strings"
 
@@ -89,7 +90,7 @@ var mutatingCalls = map[string][]int{
 	"io.SectionReader.Read": {0}, "io.SectionReader.Seek": {0},
 	"io.Copy": {0, 1}, "io.CopyN": {0, 1}, "io.CopyBuffer": {0, 1, 2}, "io.ReadAll": {0}, "io.ReadFull": {0, 1}, "io.ReadAtLeast": {0, 1},
 	"sort.Slice": {0}, "sort.SliceStable": {0}, "sort.Sort": {0}, "sort.Stable": {0}, "slices.Sort": {0}, "slices.SortFunc": {0}, "slices.SortStableFunc": {0}, "slices.Reverse": {0},
-	"builtin.copy": {0}, "encoding/binary.Read": {0, 2}, "encoding/binary.Write": {0}, "crypto/rand.Read": {0},
+	"builtin.copy": {0}, "encoding/asn1.Unmarshal": {1}, "encoding/binary.Read": {0, 2}, "encoding/binary.Write": {0}, "crypto/rand.Read": {0},
 	"encoding/binary.littleEndian.PutUint16": {1}, "encoding/binary.littleEndian.PutUint32": {1}, "encoding/binary.littleEndian.PutUint64": {1},
 	"encoding/binary.bigEndian.PutUint16": {1}, "encoding/binary.bigEndian.PutUint32": {1}, "encoding/binary.bigEndian.PutUint64": {1},
 }
@@ -100,7 +101,7 @@ var mutatingInvokes = map[string]bool{"Read": true, "Write": true, "Seek": true,
 // pureCalls: library callees that do not modify the objects handed to them
 // (beyond objects that are fresh anyway).
 var purePrefixes = []string{"fmt.", "errors.", "github.com/pkg/errors.", "strings.", "bytes.Equal", "bytes.Compare", "bytes.Trim", "bytes.Index", "bytes.Contains", "bytes.HasPrefix",
-	"crypto/subtle.", "crypto/hmac.Equal", "math/big.Int.Cmp", "encoding/asn1.ObjectIdentifier.", "crypto/x509.Certificate.CheckSignature", "crypto/x509.Certificate.CheckSignatureFrom",
+	"crypto/subtle.", "crypto/hmac.Equal", "encoding/asn1.Marshal", "math/big.Int.Cmp", "encoding/asn1.ObjectIdentifier.", "crypto/x509.Certificate.CheckSignature", "crypto/x509.Certificate.CheckSignatureFrom",
 	"crypto/x509.Certificate.Equal", "reflect.DeepEqual", "encoding/hex.EncodeToString", "time.", "builtin.len", "builtin.cap", "builtin.append", "builtin.min", "builtin.max", "builtin.print",
 	"bytes.Buffer.Bytes", "bytes.Buffer.Len", "bytes.Buffer.Cap", "bytes.Buffer.String", "bytes.Buffer.Available", "bytes.Reader.Len", "bytes.Reader.Size", "bytes.Reader.ReadAt",
 	"io.SectionReader.ReadAt", "io.SectionReader.Size", "io.ReaderAt.ReadAt", M + "/authenticode.SizeReaderAt.ReadAt", M + "/authenticode.SizeReaderAt.Size",
@@ -199,7 +200,11 @@ func (a *effAnalysis) locOf(x *effCtx, v ssa.Value) loc {
 			l |= a.locOf(x, e)
 		}
 	case *ssa.Extract:
-		l = a.locOf(x, y.Tuple)
+		if call, isCall := y.Tuple.(*ssa.Call); isCall {
+			l = a.callResultLocIdx(x, call, y.Index)
+		} else {
+			l = a.locOf(x, y.Tuple)
+		}
 	case *ssa.Next:
 		l = a.locOf(x, y.Iter)
 	case *ssa.Range:
@@ -246,6 +251,9 @@ func (a *effAnalysis) locOf(x *effCtx, v ssa.Value) loc {
 	}
 	if l == 0 {
 		l = locFresh
+	}
+	if os.Getenv("VCHECK_DEBUG") == "loc" && l&locGlobal != 0 {
+		fmt.Fprintf(os.Stderr, "loc %s %s = %s  (%T)\n", x.fn.Name(), v.Name(), l.String(), v)
 	}
 	x.memo[v] = l
 	return l
@@ -297,6 +305,11 @@ func fieldChain(v ssa.Value) []string {
 }
 
 func (a *effAnalysis) callResultLoc(x *effCtx, call *ssa.Call) loc {
+	return a.callResultLocIdx(x, call, -1)
+}
+
+// callResultLocIdx: where result idx of the call lives (idx < 0: any result).
+func (a *effAnalysis) callResultLocIdx(x *effCtx, call *ssa.Call, idx int) loc {
 	id := ir.CallID(call)
 	if freshConstructors[id] {
 		return locFresh
@@ -323,7 +336,10 @@ func (a *effAnalysis) callResultLoc(x *effCtx, call *ssa.Call) loc {
 		sub := a.calleeCtx(x, call, callee)
 		var l loc
 		for _, r := range ir.Returns(callee) {
-			for _, res := range r.Results {
+			for k, res := range r.Results {
+				if idx >= 0 && k != idx {
+					continue
+				}
 				if pointerLike(res.Type()) {
 					l |= a.locOf(sub, res)
 				}
